@@ -299,8 +299,10 @@ func genbankReferenceParser(gb *GenBank, depth int) pars.Parser {
 		ref := Reference{Number: result.Value.(int)}
 
 		paddingLength := 3 - len(strconv.Itoa(ref.Number))
-		paddingParser := pars.String(strings.Repeat(" ", paddingLength))
-		paddingParser(state, pars.Void)
+		if paddingLength > 0 {
+			paddingParser := pars.String(strings.Repeat(" ", paddingLength))
+			paddingParser(state, pars.Void)
+		}
 		pars.Line(state, result)
 		ref.Info = string(result.Token)
 
